@@ -40,11 +40,119 @@ def partition_ok(blocks, start, stop):
     return fails
 
 
+def region_programs(ck, numpy, par, man, FakeDC, SPECS):
+    """ParallelRegions.tla: programs of nested region starts / ends and
+    distributed loops (regions also opened and closed inside open loops, as
+    library routines called from a loop body do).  TLC: the level equals the
+    number of open regions and every loop takes the same decision at its
+    beginning (indices shared?) and at its end (partial results summed?).
+    Simulated programs are run rank by rank through the library's own region
+    bookkeeping, block_distributed_range and the level test of the
+    reductions; the combined result of every loop must be the serial one."""
+    import tempfile
+    import shutil
+    from harness import tlaparse
+    ck.tlc("ParallelRegions", "ParallelRegions_always.cfg", workers=4)
+    ck.tlc("ParallelRegions", "ParallelRegions_outermostonly.cfg",
+           count=False, expect_violation="LevelIsDepth")
+    nsim = 400 if ck.thorough else 80
+    d = tempfile.mkdtemp(prefix="c20pr_")
+    try:
+        pref = os.path.join(d, "tr")
+        ck.tlc("ParallelRegions", "ParallelRegions_sim.cfg",
+               simulate="file=%s,num=%d" % (pref, nsim), depth=11, workers=1,
+               seed=ck.seed + 3, count=False)
+        behs = tlaparse.load_behaviours(pref)
+    finally:
+        shutil.rmtree(d, ignore_errors=True)
+    progs = [["StartRegion", "BeginLoop", "StartRegion", "FinishRegion",
+              "EndLoop", "FinishRegion"],
+             ["StartRegion", "StartRegion", "FinishRegion", "BeginLoop",
+              "EndLoop", "FinishRegion"]]
+    for beh in behs:
+        progs.append([act for act, st in beh[1:]])
+    seen = set()
+
+    class RegionDC(FakeDC):
+        def allreduce(self, A, operation="sum"):
+            raise MachineryFailure("not used")
+
+    for prog in progs:
+        if tuple(prog) in seen or "BeginLoop" not in prog:
+            continue
+        seen.add(tuple(prog))
+        for size in (2, 3):
+            n = 7
+            loops = {}            # loop id -> list per rank of (partial, summed)
+            levels = []
+            broke = None
+            for rank in range(size):
+                dc = RegionDC(size, rank)
+                old = man.parallel_conf
+                man.parallel_conf = dc
+                try:
+                    open_loops = []
+                    lid = 0
+                    for op in prog:
+                        if op == "StartRegion":
+                            dc.start_parallel_region()
+                        elif op == "FinishRegion":
+                            dc.finish_parallel_region()
+                        elif op == "BeginLoop":
+                            part = numpy.zeros(n)
+                            for k in par.block_distributed_range(0, n):
+                                part[k] += 1.0
+                            open_loops.append((lid, part))
+                            lid += 1
+                        elif op == "EndLoop":
+                            li, part = open_loops.pop()
+                            # the test the reductions make
+                            summed = dc.parallel_level == 1
+                            loops.setdefault(li, []).append((part, summed))
+                    levels.append((dc.parallel_level, dc.parallel_region))
+                except Exception as ex:
+                    broke = repr(ex)[:200]
+                finally:
+                    man.parallel_conf = old
+            rp = dict(kind="region-program", program=prog, size=size)
+            ck.case("region-program", (tuple(prog), size),
+                    nontrivial="StartRegion" in prog[prog.index(
+                        "BeginLoop"):])
+            if broke:
+                ck.violation("regions-nest", "exception",
+                             dict(rp, exception=broke), rp)
+                continue
+            bad = None
+            for li, parts in loops.items():
+                if len(parts) != size:
+                    continue
+                if parts[0][1]:
+                    total = sum(p for p, sm in parts)
+                else:
+                    total = parts[0][0]          # what the root holds
+                if numpy.abs(total - 1.0).max() != 0:
+                    bad = (li, total.tolist())
+            # closed programs hand the configuration back at level 0
+            closed = prog.count("StartRegion") == prog.count("FinishRegion")
+            if bad:
+                ck.violation("reduce-equals-serial",
+                             "nested-regions:loop-result",
+                             dict(rp, loop=bad[0], result=bad[1]), rp)
+            elif closed and any(lv != (0, 0) for lv in levels):
+                ck.violation("regions-nest", "level-not-restored",
+                             dict(rp, levels=levels), rp)
+        ck.traces_validated += 1
+
+
 def main():
     ck = Check("C20")
     import numpy
     from quantarhei.core import parallel as par
     from quantarhei.core.managers import Manager
+
+    class FakeComm:
+        def Barrier(self):
+            pass
 
     class FakeDC(par.DistributedConfiguration):
         """A DistributedConfiguration that pretends to be rank `rank` of
@@ -52,26 +160,17 @@ def main():
 
         def __init__(self, size, rank, totals=None):
             super().__init__()
-            self.have_mpi = False
+            # the library's own region bookkeeping (start_parallel_region /
+            # finish_parallel_region) runs as with MPI; only the
+            # communicator is a stand-in
+            self.have_mpi = True
+            self.comm = FakeComm()
+            self.use_steerer = False
             self.size = size
             self.rank = rank
             self.totals = totals if totals is not None else []
             self.ncall = 0
             self.partial = None
-
-        def start_parallel_region(self):
-            if self.size > 1:
-                self.parallel_level += 1
-            if self.parallel_level > 0:
-                self.inparallel = True
-            self.parallel_region += 1
-
-        def finish_parallel_region(self):
-            if self.size > 1:
-                self.parallel_level -= 1
-            if self.parallel_level < 0:
-                raise Exception()
-            self.parallel_region -= 1
 
         def allreduce(self, A, operation="sum"):
             if self.parallel_region < 1:
@@ -313,6 +412,8 @@ def main():
 
     # ------------------------------------------------ callers: reduce = serial
     callers(ck, with_fake, StopPass)
+    region_programs(ck, numpy, par, man, FakeDC, SPECS)
+
     ck.assume("MPI itself (mpi4py Reduce/Allreduce) is not exercised; the "
               "fake DistributedConfiguration sums the per-rank partial arrays")
     ck.assume("TLC bound: sizes<=4(6), starts {-2,0,3}(-3..6), lengths<=6(9) "
